@@ -11,6 +11,7 @@
 //!              find a server and deliver the compiler's true result
 //!   poison   one fresh real server; well-formed but unservable compile requests (real client or hand-built
 //!            frame) followed by ordinary requests for the same compiler from other connections
+//!   takeover a Unix-socket server draining after --stop-server while a new server takes the socket path over
 //!   bigout   a real server with a small frame limit; the compiler's output is just below / at / above what fits into
 //!            one CompileFinished frame; the client must deliver the status with the complete output either way
 //!   vanish   a DAEMONISED real server (started by `sccache --start-server`, pid found through /proc); a peer sends a
@@ -422,6 +423,17 @@ impl Live {
         }
         matches!(read_frame(&mut s).and_then(|p| verif_decode_response(&p)), Some(Response::Stats(_)))
     }
+    fn rich_client_cmd(&self, work: &Path) -> Command {
+        let mut c = base_cmd(self.dir.path());
+        server_env(&mut c, self.dir.path(), self.port, self.cap);
+        c.env("SOURCE_DATE_EPOCH", RICH_EPOCH)
+            .current_dir(work)
+            .arg(&self.wrapper)
+            .args(RICH_ARGS)
+            .stdout(Stdio::piped())
+            .stderr(Stdio::piped());
+        c
+    }
     fn client_cmd(&self, work: &Path) -> Command {
         let mut c = base_cmd(self.dir.path());
         server_env(&mut c, self.dir.path(), self.port, self.cap);
@@ -444,6 +456,35 @@ fn make_unit(work: &Path, k: u64) -> Vec<u8> {
         .status()
         .expect("gcc");
     assert!(st.success());
+    std::fs::read(work.join("ref.o")).unwrap()
+}
+
+const RICH_ARGS: [&str; 6] = ["-Wall", "-fdiagnostics-color=always", "-c", "unit.c", "-o", "unit.o"];
+const RICH_EPOCH: &str = "1000000000";
+
+/// A unit whose DIRECT compile depends on the caller's environment (SOURCE_DATE_EPOCH through __DATE__/__TIME__: a
+/// variable the client does not forward to the server) and on the caller's stdio (forced colour diagnostics): the
+/// object and the exact stderr bytes of the direct run are the reference for a client that has to fall back.
+fn make_rich_unit(work: &Path, k: u64) -> Vec<u8> {
+    std::fs::create_dir_all(work).unwrap();
+    std::fs::write(
+        work.join("unit.c"),
+        format!("const char *built_{k} = __DATE__ \" \" __TIME__;\nint unit_{k}(void) {{ int unused_{k}; return {k}; }}\n"),
+    )
+    .unwrap();
+    let mut args: Vec<&str> = RICH_ARGS.to_vec();
+    *args.last_mut().unwrap() = "ref.o";
+    let out = Command::new("/usr/bin/gcc")
+        .current_dir(work)
+        .env_clear() // the very environment the client under test is given (locale, TERM ... shape diagnostics)
+        .env("PATH", "/usr/local/bin:/usr/bin:/bin")
+        .env("TERM", "dumb")
+        .env("SOURCE_DATE_EPOCH", RICH_EPOCH)
+        .args(&args)
+        .output()
+        .expect("gcc");
+    assert!(out.status.success());
+    std::fs::write(work.join("ref.stderr"), &out.stderr).unwrap();
     std::fs::read(work.join("ref.o")).unwrap()
 }
 
@@ -662,17 +703,23 @@ fn observe_client(mut client: Child, log_path: &Path, work: &Path, reference: &[
     let pid = client.id();
     let code = wait_child(&mut client, FAILSAFE)?;
     let mut err = String::new();
+    let mut raw_err = vec![];
     if let Some(mut e) = client.stderr.take() {
-        let mut b = vec![];
-        let _ = e.read_to_end(&mut b);
-        err = String::from_utf8_lossy(&b).into_owned();
+        let _ = e.read_to_end(&mut raw_err);
+        err = String::from_utf8_lossy(&raw_err).into_owned();
     }
     let log = std::fs::read_to_string(log_path).unwrap_or_default();
     let ran = log
         .lines()
         .filter(|l| l.split(' ').nth(1).and_then(|p| p.parse::<u32>().ok()) == Some(pid))
         .count();
-    let obj_ok = std::fs::read(work.join("unit.o")).map(|o| o == reference).unwrap_or(false);
+    let mut obj_ok = std::fs::read(work.join("unit.o")).map(|o| o == reference).unwrap_or(false);
+    // a client that ran the command itself must have produced the direct run's diagnostics, byte for byte
+    if let (true, Ok(want)) = (ran > 0, std::fs::read(work.join("ref.stderr"))) {
+        if !want.is_empty() && !raw_err.windows(want.len()).any(|w| w == &want[..]) {
+            obj_ok = false;
+        }
+    }
     let why = classify_stderr(&err);
     let kind = if ran > 0 {
         "local"
@@ -706,8 +753,9 @@ fn run_kill_case(case: &Sx) -> Sx {
     let d = srv.dir.path().to_path_buf();
     let work = d.join("w");
     let work2 = d.join("w2");
-    let reference = make_unit(&work, 7);
-    let reference2 = make_unit(&work2, 8);
+    let armed_phase = phase != "none";
+    let reference = if armed_phase { make_rich_unit(&work, 7) } else { make_unit(&work, 7) };
+    let reference2 = make_rich_unit(&work2, 8);
     let fifo = d.join("fifo");
     let cfifo = std::ffi::CString::new(fifo.as_os_str().as_bytes()).unwrap();
     unsafe {
@@ -720,7 +768,7 @@ fn run_kill_case(case: &Sx) -> Sx {
         std::fs::write(d.join(format!("arm-{phase}-a")), "").unwrap();
         std::fs::write(d.join("arm-compile-b"), "").unwrap();
     }
-    let mut cmd = srv.client_cmd(&work);
+    let mut cmd = if armed_phase { srv.rich_client_cmd(&work) } else { srv.client_cmd(&work) };
     cmd.env("C11_TAG", "a");
     if ignore {
         cmd.env("SCCACHE_IGNORE_SERVER_IO_ERROR", "1");
@@ -758,7 +806,7 @@ fn run_kill_case(case: &Sx) -> Sx {
         // first the client under test reaches its phase and stays there ...
         wait_lines(1, &mut txt, &mut client);
         // ... only then the concurrent client starts; it is caught in its own compiler run
-        let mut c2 = srv.client_cmd(&work2);
+        let mut c2 = srv.rich_client_cmd(&work2);
         c2.env("C11_TAG", "b");
         let mut ch2 = c2.spawn().expect("spawn concurrent client");
         wait_lines(2, &mut txt, &mut ch2);
@@ -790,12 +838,14 @@ fn run_kill_case(case: &Sx) -> Sx {
     // "if no server is running the client starts one and proceeds"
     let mut restart = "not_applicable";
     if armed {
-        let _ = std::fs::remove_file(work.join("unit.o"));
-        let mut c2 = srv.client_cmd(&work);
+        // (an ordinary unit: what a compile THROUGH the server does with SOURCE_DATE_EPOCH is not C11's business)
+        let work_r = d.join("wr");
+        let reference_r = make_unit(&work_r, 9);
+        let mut c2 = srv.client_cmd(&work_r);
         c2.env("SCCACHE_IDLE_TIMEOUT", "20");
         let mut ch = c2.spawn().expect("spawn second client");
         let code2 = wait_child(&mut ch, FAILSAFE);
-        let ok2 = std::fs::read(work.join("unit.o")).map(|o| o == reference).unwrap_or(false);
+        let ok2 = std::fs::read(work_r.join("unit.o")).map(|o| o == reference_r).unwrap_or(false);
         restart = if code2 == Some(0) && ok2 { "restart_ok" } else { "restart_failed" };
         let mut stop = base_cmd(&d);
         server_env(&mut stop, &d, srv.port, srv.cap);
@@ -1515,6 +1565,105 @@ fn run_bigout_case(live: &mut Option<Live>, counter: &mut u64, case: &Sx) -> Sx 
     ])
 }
 
+// ------------------------------------------------------------------ leg takeover
+
+/// case ( how ): Unix-socket server A with a compile in flight is told to stop; while it drains, a NEW server takes
+/// the socket path over (how = start_server: `sccache --start-server`; how = client: an ordinary client finds no
+/// listener and starts one); then A finishes and exits.  Afterwards the socket must still be there and the next
+/// client must be served.  Output ( inflight during socket_present next ).
+fn run_takeover_case(case: &Sx) -> Sx {
+    let by_client = case.arg(0).is_sym("client");
+    let dir = scratch("vh-c11s-");
+    let d = dir.path().to_path_buf();
+    let port = free_port();
+    let sock = d.join("s.sock");
+    let wrapper = write_wrapper(&d);
+    mkfifo(&d.join("fifo"));
+    mkfifo(&d.join("release-b"));
+    let mut fifo = open_rdwr_nonblock(&d.join("fifo"));
+    let mut rel_b = open_rdwr_nonblock(&d.join("release-b"));
+    let log_path = d.join("phases.log");
+    let sc = |args: &[&str]| {
+        let mut c = base_cmd(&d);
+        server_env(&mut c, &d, port, DEFAULT_CAP_BYTES);
+        c.env("SCCACHE_SERVER_UDS", &sock).current_dir(&d).args(args).stdout(Stdio::null()).stderr(Stdio::null());
+        c
+    };
+    let client = |tag: &str, work: &Path| {
+        let mut c = base_cmd(&d);
+        server_env(&mut c, &d, port, DEFAULT_CAP_BYTES);
+        c.env("SCCACHE_SERVER_UDS", &sock)
+            .env("C11_TAG", tag)
+            .current_dir(work)
+            .arg(&wrapper)
+            .args(["-c", "unit.c", "-o", "unit.o"])
+            .stdout(Stdio::piped())
+            .stderr(Stdio::piped());
+        c
+    };
+    let served = |o: &Option<Observed>| match o {
+        Some(o) if o.code == 0 && o.obj_ok => Sx::sym("served"),
+        Some(o) => Sx::B(format!("failed_{}_{}_{}", o.kind, o.why, o.code).into_bytes()),
+        None => Sx::sym("hung"),
+    };
+    let _ = sc(&["--start-server"]).status();
+    let a = server_pids(&d);
+    if a.len() != 1 {
+        scan_and_kill_everything(&d);
+        return Sx::L(vec![Sx::sym("harness_problem"), Sx::sym("server_a_did_not_start")]);
+    }
+    // a compile in flight on A, held in the compiler
+    let wb = d.join("wb");
+    let rb = make_unit(&wb, 601);
+    std::fs::write(d.join("hold-compile-b"), "").unwrap();
+    let inflight = client("b", &wb).spawn().expect("spawn in-flight client");
+    let t0 = Instant::now();
+    let mut buf = [0u8; 64];
+    let mut announced = false;
+    while !announced && t0.elapsed() < Duration::from_secs(30) {
+        match fifo.read(&mut buf) {
+            Ok(n) if n > 0 => announced = true,
+            _ => std::thread::sleep(Duration::from_millis(2)),
+        }
+    }
+    // A is told to stop: it stops listening and drains (at most 10 s)
+    let _ = sc(&["--stop-server"]).status();
+    // the take-over inside the grace window
+    let mut during = Sx::sym("started");
+    if by_client {
+        let wc = d.join("wc");
+        let rc = make_unit(&wc, 602);
+        let o = client("c", &wc).spawn().ok().and_then(|c| observe_client(c, &log_path, &wc, &rc));
+        during = served(&o);
+    } else {
+        let _ = sc(&["--start-server"]).status();
+    }
+    // A finishes its last request and goes away
+    let _ = rel_b.write_all(b"g\n");
+    let oi = observe_client(inflight, &log_path, &wb, &rb);
+    let t0 = Instant::now();
+    while server_pids(&d).contains(&a[0]) && t0.elapsed() < Duration::from_secs(30) {
+        std::thread::sleep(Duration::from_millis(5));
+    }
+    let a_gone = !server_pids(&d).contains(&a[0]);
+    let new_server_alive = !server_pids(&d).is_empty();
+    let socket_present = sock.exists();
+    // "if no server is running the client starts one and proceeds" / a running one is found
+    let wn = d.join("wn");
+    let rn = make_unit(&wn, 603);
+    let on = client("n", &wn).spawn().ok().and_then(|c| observe_client(c, &log_path, &wn, &rn));
+    let _ = sc(&["--stop-server"]).status();
+    scan_and_kill_everything(&d);
+    Sx::L(vec![
+        served(&oi),
+        during,
+        Sx::bool(a_gone),
+        // a live server without its socket file is unreachable for everybody
+        Sx::bool(socket_present || !new_server_alive),
+        served(&on),
+    ])
+}
+
 fn main() {
     vh::quiet_panics();
     let leg = std::env::args().nth(1).unwrap_or_default();
@@ -1528,6 +1677,8 @@ fn main() {
         "server" => vh::catch(|| run_server_case(&mut live, &mut counter, case))
             .unwrap_or_else(|e| Sx::L(vec![Sx::sym("harness_panic"), Sx::B(e.into_bytes())])),
         "kill" => vh::catch(|| run_kill_case(case))
+            .unwrap_or_else(|e| Sx::L(vec![Sx::sym("harness_panic"), Sx::B(e.into_bytes())])),
+        "takeover" => vh::catch(|| run_takeover_case(case))
             .unwrap_or_else(|e| Sx::L(vec![Sx::sym("harness_panic"), Sx::B(e.into_bytes())])),
         "bigout" => vh::catch(|| run_bigout_case(&mut live, &mut counter, case))
             .unwrap_or_else(|e| Sx::L(vec![Sx::sym("harness_panic"), Sx::B(e.into_bytes())])),
